@@ -58,11 +58,23 @@ theorem takeFit_snd_subset (wl : Nat) (gs : List G) : ∀ g ∈ (takeFit wl gs).
   rw [← this]
   exact List.mem_append_right _ hg
 
+theorem takeFitForce_append (wl : Nat) (gs : List G) :
+    (takeFitForce wl gs).1 ++ (takeFitForce wl gs).2 = gs := by
+  induction gs generalizing wl with
+  | nil => simp [takeFitForce]
+  | cons g gs ih =>
+    unfold takeFitForce
+    split
+    · split
+      · simp [ih]
+      · simp [takeFit_append]
+    · simp
+
 theorem takeFitF_append (fx : Fixes) (len wl : Nat) (gs : List G) :
     (takeFitF fx len wl gs).1 ++ (takeFitF fx len wl gs).2 = gs := by
   unfold takeFitF
   split
-  · cases gs <;> simp
+  · exact takeFitForce_append wl gs
   · exact takeFit_append wl gs
 
 theorem takeFitF_snd_length_le (fx : Fixes) (len wl : Nat) (gs : List G) :
@@ -77,31 +89,61 @@ theorem takeFitF_snd_subset (fx : Fixes) (len wl : Nat) (gs : List G) :
   rw [← this]
   exact List.mem_append_right _ hg
 
-/-- Without the progress repair, or when something fits, `takeFitF` is `takeFit`. -/
+theorem takeFit_cons_fit (wl : Nat) (g : G) (gs : List G) (h : g.w ≤ wl) :
+    takeFit wl (g :: gs) = (g :: (takeFit (wl - g.w) gs).1, (takeFit (wl - g.w) gs).2) := by
+  rw [takeFit]; simp [h]
+
+theorem takeFitForce_cons_fit (wl : Nat) (g : G) (gs : List G) (h : g.w ≤ wl) :
+    takeFitForce wl (g :: gs) =
+      if g.w = 0 then (g :: (takeFitForce wl gs).1, (takeFitForce wl gs).2)
+      else (g :: (takeFit (wl - g.w) gs).1, (takeFit (wl - g.w) gs).2) := by
+  rw [takeFitForce]; simp [h]
+
+/-- When every cluster fits the width, forcing changes nothing. -/
+theorem takeFitForce_eq (wl : Nat) (gs : List G) (h : ∀ g ∈ gs, g.w ≤ wl) :
+    takeFitForce wl gs = takeFit wl gs := by
+  induction gs with
+  | nil => simp [takeFitForce, takeFit]
+  | cons g gs ih =>
+    have hg := h g (by simp)
+    rw [takeFitForce_cons_fit wl g gs hg, takeFit_cons_fit wl g gs hg]
+    split
+    · rename_i h0
+      rw [ih (fun g' hg' => h g' (List.mem_cons_of_mem _ hg')), h0]
+      simp
+    · rfl
+
+/-- Without the progress repair, or when the line is not empty, or when every cluster fits,
+`takeFitF` is `takeFit`. -/
 theorem takeFitF_eq (fx : Fixes) (len wl : Nat) (gs : List G)
-    (h : fx.forceProgress = false ∨ len ≠ 0 ∨ (takeFit wl gs).1 ≠ []) :
+    (h : fx.forceProgress = false ∨ len ≠ 0 ∨ ∀ g ∈ gs, g.w ≤ wl) :
     takeFitF fx len wl gs = takeFit wl gs := by
   unfold takeFitF
   split
   · rename_i hc
     rcases h with h | h | h
     · rw [h] at hc; cases hc.1
-    · exact absurd hc.2.1 h
-    · exact absurd hc.2.2 h
+    · exact absurd hc.2 h
+    · exact takeFitForce_eq wl gs h
   · rfl
+
+theorem takeFitForce_progress (wl : Nat) (g : G) (gs : List G) :
+    (takeFitForce wl (g :: gs)).2.length < (g :: gs).length := by
+  unfold takeFitForce
+  split
+  · split
+    · have := congrArg List.length (takeFitForce_append wl gs)
+      simp at this ⊢; omega
+    · have := takeFit_snd_length_le (wl - g.w) gs
+      simp; omega
+  · simp
 
 /-- With the progress repair, on an empty line, a non-empty section always loses a cluster. -/
 theorem takeFitF_progress (fx : Fixes) (wl : Nat) (g : G) (gs : List G) (hf : fx.forceProgress = true) :
     (takeFitF fx 0 wl (g :: gs)).2.length < (g :: gs).length := by
   unfold takeFitF
-  split
-  · simp
-  · rename_i hc
-    have hne : (takeFit wl (g :: gs)).1 ≠ [] := fun h => hc ⟨hf, rfl, h⟩
-    have := congrArg List.length (takeFit_append wl (g :: gs))
-    have hpos : 0 < (takeFit wl (g :: gs)).1.length := List.length_pos_iff.mpr hne
-    simp at this ⊢
-    omega
+  simp only [hf, true_and, if_true]
+  exact takeFitForce_progress wl g gs
 
 /-! ### The step relation -/
 
